@@ -68,6 +68,9 @@ def run(chk):
                     tag_values.setdefault(m[0], set()).add(ast.unparse(m[1]))
                 else:
                     tail.append(e)
+            if tags != MANDATORY and len(tags) < len([e for e in lines]) - 1:
+                # the tag lines are not built from the one template this reading knows: the order of the tags is decided by the fold (R1 in writer_rule)
+                raise AnalysisError('C18.R1', q_wbr, f'tag lines of write_board_result are not recognised by the structural reading ({len(tags)} of {len(lines)} write_line calls)')
             chk.require(tags == MANDATORY, 'C18.R1', w_wbr, q_wbr, f'tags written: {tags}',
                         'the 15 mandatory tags are written in PBN order', f'tags written are {tags}; PBN requires {MANDATORY}')
             # R2 separator
